@@ -779,7 +779,7 @@ pub fn replay_c13(rest: &[String]) -> ! {
 pub fn c13(a: &Args) -> (Stats, String) {
     let t = Timer::new();
     // `--depths F,K` overrides (used by the slow monitors)
-    let (mut dfull, mut dcore) = if a.thorough { (5, 7) } else { (4, 6) };
+    let (mut dfull, mut dcore) = if a.thorough { (5, 8) } else { (4, 6) };
     if let Some(p) = a.rest.iter().position(|x| x == "--depths") {
         let (x, y) = a.rest[p + 1].split_once(',').unwrap();
         dfull = x.parse().unwrap();
